@@ -1062,6 +1062,7 @@ func c12_7(c *core.Ctx, p *core.Prog) {
 
 // c12_8: unexported fields of the stream bookkeeping structs that are read somewhere must be written somewhere.
 func init() {
+	register("C14", &core.Rule{ID: "C14.11", Title: "stream bookkeeping fields of the consumer are written before they are read (a payload type that is never recorded never matches: superseded stream readers are never evicted and their memory stays counted against the limit)", Mod: core.ModRoot, Floor: 5, Run: c12_8})
 	register("C07", &core.Rule{ID: "C07.12", Title: "stream bookkeeping fields of the consumer are written before they are read (a payload type that is never recorded never matches: stale stream readers are not evicted and decode later payloads)", Mod: core.ModRoot, Floor: 5, Run: c12_8})
 }
 
